@@ -103,6 +103,9 @@ func c02ExtSets() []c02Ext {
 		{"username-subst", []sshExtension{{Key: "k8s-user", Value: "${USERNAME//./-}"}, {Key: "u-$USERNAME", Value: "1"}}},
 		{"empty-key", []sshExtension{{Key: "", Value: "dropped"}, {Key: "kept", Value: "v"}}},
 		{"collides-standard", []sshExtension{{Key: "permit-pty", Value: "x"}}},
+		// flag-style extensions (the five standard ones are of that style too): an
+		// empty value, literal or after expansion, is a configured extension all the same
+		{"empty-value", []sshExtension{{Key: "no-touch-required", Value: ""}, {Key: "flag-$USERNAME", Value: ""}, {Key: "kept", Value: "v"}}},
 	}
 }
 
